@@ -56,7 +56,7 @@ RecvAccept(s, m, mintOk) ==
 DepositAccept(s, m, transferOk, burnOk) ==
   /\ ValidAddr(m.from)
   /\ m.amt # ABSENT /\ m.amt > 0
-  /\ (HasLimit(s, MINT) => m.amt <= LimitOf(s, MINT))
+  /\ (HasLimit(s, MintLower) => m.amt <= LimitOf(s, MintLower))    \* limits are kept under the lower-cased denom
   /\ m.tok = MINT
   /\ m.mrcpt.n = 32 /\ ~IsZeroBytes(m.mrcpt)
   /\ HasMsgr(s, m.dst) /\ MsgrOf(s, m.dst).addr.n = 32 /\ ~IsZeroBytes(MsgrOf(s, m.dst).addr)
